@@ -4,6 +4,7 @@ import (
 	"fmt"
 	"go/token"
 	"go/types"
+	"os"
 	"regexp"
 	"sort"
 	"strconv"
@@ -999,6 +1000,42 @@ func constIndexSafe(p *core.Program, fn *ssa.Function, in ssa.Instruction, xs st
 		}
 		if known && k <= int64(g) {
 			return true, fmt.Sprintf("each match of /%s/ has %d groups", m[3], g)
+		}
+	}
+	// the callback of rx.ReplaceAllStringFunc gets a match of rx: FindStringSubmatch of that very
+	// expression on that very argument is never nil and has every group
+	if m := reRegexpGlobal.FindStringSubmatch(xs); m != nil && strings.HasPrefix(xs, "regexp.Regexp.FindStringSubmatch(") && strings.HasSuffix(xs, ",$0)") && p.Original(fn).Parent() != nil {
+		if g, known := rxGroupsOf(m[3]); known && k <= int64(g) {
+			cn := core.NewCanon(p)
+			rxName := strings.TrimSuffix(strings.TrimPrefix(xs, "regexp.Regexp.FindStringSubmatch("), ",$0)")
+			uses, okAll := 0, true
+			orig := p.Original(fn)
+			for _, in2 := range instrsOf(orig.Parent()) {
+				mc, isMC := in2.(*ssa.MakeClosure)
+				if !isMC || mc.Fn != ssa.Value(orig) {
+					continue
+				}
+				if mc.Referrers() == nil {
+					okAll = false
+					continue
+				}
+				for _, ref := range *mc.Referrers() {
+					if _, dbg := ref.(*ssa.DebugRef); dbg {
+						continue
+					}
+					uses++
+					call, isCall := ref.(*ssa.Call)
+					if !isCall || !core.IsCallTo(call, "(*regexp.Regexp).ReplaceAllStringFunc") || len(call.Call.Args) != 3 || call.Call.Args[2] != ssa.Value(mc) || cn.Of(call.Call.Args[0]) != rxName {
+						okAll = false
+					}
+				}
+			}
+			if os.Getenv("DDCHECK_T3DBG") != "" {
+				fmt.Fprintln(os.Stderr, "T3DBG", xs, uses, okAll, rxName)
+			}
+			if uses >= 1 && okAll {
+				return true, fmt.Sprintf("the closure is only used as the callback of ReplaceAllStringFunc of the same expression: its argument is a match, which has all %d groups", g)
+			}
 		}
 	}
 	// guarded by a length test of the same value
